@@ -160,9 +160,11 @@ def check_lookup(db, rep, tier):
         for k in range(nx):
             cl = [[x] for x in nodes]
             cl[k] = [nodes[k], 'Q']
-            positions.append(('on node %d' % k, cl, [b for b in (k - 1, k) if 0 <= b <= nx - 2], None))
+            # (the concrete instance is used only by comparisons and conversions that are not between plain symbols)
+            positions.append(('on node %d' % k, cl, [b for b in (k - 1, k) if 0 <= b <= nx - 2], dict(vals, Q=vals[nodes[k]])))
             if k < nx - 1:
-                positions.append(('between %d and %d' % (k, k + 1), [[x] for x in nodes[:k + 1]] + [['Q']] + [[x] for x in nodes[k + 1:]], [k], None))
+                positions.append(('between %d and %d' % (k, k + 1), [[x] for x in nodes[:k + 1]] + [['Q']] + [[x] for x in nodes[k + 1:]], [k],
+                                  dict(vals, Q=(vals[nodes[k]] + vals[nodes[k + 1]]) / 2)))
         positions.append(('above', [[x] for x in nodes] + [['Q']], None, None))
         positions.append(('above by one ulp', [[x] for x in nodes] + [['Q']], None, dict(vals, Q=hi * (1 + mpf(2) ** -52))))
         positions.append(('above, far', [[x] for x in nodes] + [['Q']], None, dict(vals, Q=hi + 1)))
